@@ -4,6 +4,7 @@
 package gen
 
 import (
+	"encoding/json"
 	"fmt"
 
 	"pgregory.net/rapid"
@@ -28,6 +29,52 @@ type Segment struct {
 // Stream is a generated input.
 type Stream struct {
 	Segs []Segment `json:"segs"`
+}
+
+// streamJSON is the written form of a Stream: a long run of one repeated (segment, segment) pair at the
+// start is stored once with its count.
+type streamJSON struct {
+	RepeatPair []Segment `json:"repeat_pair,omitempty"`
+	Pairs      int       `json:"pairs,omitempty"`
+	Segs       []Segment `json:"segs"`
+}
+
+func sameSeg(a, b Segment) bool {
+	return a.Kind == b.Kind && a.Note == b.Note && string(a.Data) == string(b.Data)
+}
+
+func (s Stream) MarshalJSON() ([]byte, error) {
+	n := 0
+	if len(s.Segs) >= 200 {
+		n = 2
+		for n < len(s.Segs) && sameSeg(s.Segs[n], s.Segs[n-2]) {
+			n++
+		}
+		n -= n % 2
+	}
+	if n >= 200 {
+		return json.Marshal(streamJSON{RepeatPair: s.Segs[:2], Pairs: n / 2, Segs: s.Segs[n:]})
+	}
+	segs := s.Segs
+	if segs == nil {
+		segs = []Segment{}
+	}
+	return json.Marshal(streamJSON{Segs: segs})
+}
+
+func (s *Stream) UnmarshalJSON(b []byte) error {
+	var j streamJSON
+	if err := json.Unmarshal(b, &j); err != nil {
+		return err
+	}
+	s.Segs = nil
+	if len(j.RepeatPair) == 2 && j.Pairs > 0 && j.Pairs <= 1<<20 {
+		for i := 0; i < j.Pairs; i++ {
+			s.Segs = append(s.Segs, j.RepeatPair[0], j.RepeatPair[1])
+		}
+	}
+	s.Segs = append(s.Segs, j.Segs...)
+	return nil
 }
 
 func (s Stream) Bytes() []byte {
@@ -349,6 +396,27 @@ func frameOrRepeat(t *rapid.T, s Stream, maxLen int) []byte {
 	return ValidFrame(t, maxLen)
 }
 
+// MaybeManyPairs rarely (about one draw in 150) returns a long run of thousands of (junk, frame) pairs -
+// the same short junk and the same short frame over and over, so the stream is periodic and stays small
+// when written out.  Counters and buffers that only misbehave after thousands of transitions are reached
+// this way; it returns the segments (nil otherwise).
+func MaybeManyPairs(t *rapid.T) []Segment {
+	if rapid.IntRange(0, 149).Draw(t, "manyPairs") != 77 {
+		return nil
+	}
+	n := rapid.SampledFrom([]int{4097, 5000, 9000}).Draw(t, "nPairs")
+	junk := []byte(rapid.SampledFrom([]string{"ab\n", "$G\r\n", "x"}).Draw(t, "pairJunk"))
+	frame := SmallValidFrame(t)
+	if len(frame) > 20 {
+		frame = enc.Frame(enc.PayloadWithType(1005, 3, []byte{1, 2, 3}))
+	}
+	segs := make([]Segment, 0, 2*n)
+	for i := 0; i < n; i++ {
+		segs = append(segs, Segment{Kind: "junk", Data: junk}, Segment{Kind: "valid", Data: frame})
+	}
+	return segs
+}
+
 // Weights of the segment grammar.
 type Weights struct {
 	Valid, Junk, JunkD3, Corrupt, Truncated, Near, Raw int
@@ -362,6 +430,9 @@ var Adversarial = Weights{Valid: 6, Junk: 3, JunkD3: 2, Corrupt: 5, Truncated: 2
 func AnyStream(t *rapid.T, w Weights, maxSegs, maxLen int) Stream {
 	n := rapid.IntRange(0, maxSegs).Draw(t, "nSegs")
 	var s Stream
+	if many := MaybeManyPairs(t); many != nil {
+		s.Segs = many
+	}
 	total := w.Valid + w.Junk + w.JunkD3 + w.Corrupt + w.Truncated + w.Near + w.Raw
 	for i := 0; i < n; i++ {
 		if lj := MaybeLongJunk(t); lj != nil {
@@ -411,6 +482,9 @@ type Expect struct {
 func CleanStream(t *rapid.T, maxSegs, maxLen int, allowTail bool) Stream {
 	n := rapid.IntRange(1, maxSegs).Draw(t, "nSegs")
 	var s Stream
+	if many := MaybeManyPairs(t); many != nil {
+		s.Segs = many
+	}
 	for i := 0; i < n; i++ {
 		if lj := MaybeLongJunk(t); lj != nil {
 			s.Segs = append(s.Segs, Segment{Kind: "junk", Note: "long-run", Data: lj})
